@@ -7,7 +7,7 @@ package app
 // runTasks: a non-zero exit status of any command of any executed task makes the action fail.
 //@ func (*App).runTasks
 //@ props C09
-//@ requires a.Options != nil && runner != nil && TasksInv(spokfile) && I01(cp(spokfile))
+//@ requires a.Options != nil && runner != nil && TasksInv(spokfile) && I01(cp(spokfile)) && spokfile.Globs != nil && GlobsCurrent(spokfile)
 //@ modifies fexists, fdata, last, ranCount, dagV, dagE, dagItem, dagN, qpos, lastGraph, runPhase, mapOf(spokfile.Globs), lastResults
 //@ at return Run#0: ghost lastResults = results
 //@ ensures [C09,failing-command-fails-action] result == nil ==> tasksOk(lastResults, len(lastResults))
